@@ -148,7 +148,13 @@ fn main() {
         if f.status == "open" {
             match case {
                 Some(case) => {
-                    let viols = (prop.replay)(&ctx, &case);
+                    let mut viols = (prop.replay)(&ctx, &case);
+                    for _ in 1..f.attempts.unwrap_or(1) {
+                        if viols.iter().any(|v| f.explains(&v.sig)) {
+                            break;
+                        }
+                        viols = (prop.replay)(&ctx, &case);
+                    }
                     if viols.iter().any(|v| f.explains(&v.sig)) {
                         println!("KNOWN-FINDING: property={id} {} [{}]", f.what, f.id);
                         known_lines.push(format!("{}: {}", f.id, f.what));
